@@ -75,6 +75,9 @@ func ConsumeMultisignatureVerificationGas(
 	params authtypes.Params, accSeq uint64,
 ) error {
 	size := sig.BitArray.Count()
+	if size != len(pubkey.GetPubKeys()) || sig.BitArray.NumTrueBitsBefore(size) != len(sig.Signatures) {
+		return fmt.Errorf("multisig bit array does not match the public keys and signatures")
+	}
 	sigIndex := 0
 
 	for i := 0; i < size; i++ {
